@@ -37,6 +37,8 @@ func main() {
 		runChainProfile(profileSpec{"aol", genAolHistory, func() []Monitor {
 			return []Monitor{&aolRecordMonitor{}, &aolAuthMonitor{}, &aolCounterMonitor{}}
 		}}, *seed, *n, *out, *replay, *blocks)
+	case "aollist":
+		runChainProfile(profileSpec{"aollist", genAolListHistory, func() []Monitor { return []Monitor{&aolCounterMonitor{}} }}, *seed, *n, *out, *replay, *blocks)
 	case "did":
 		runChainProfile(profileSpec{"did", genDidHistory, func() []Monitor { return []Monitor{newDidMonitor()} }}, *seed, *n, *out, *replay, *blocks)
 	case "compkey":
